@@ -2,7 +2,7 @@
 //vp:pkg ./tsdb
 //vp:roots ./storage ./tsdb/chunkenc ./tsdb/chunks ./tsdb/tombstones ./tsdb/index ./model/labels ./model/histogram ./model/value
 //vp:bounds read path of out-of-order head data (OOOChunk.Insert, then OOOChunk.ToEncodedChunks, which re-encodes the sorted samples of the requested range into chunks by sample kind): 1..2 samples (thorough 3) inserted in arbitrary order with symbolic pairwise distinct timestamps in [0,64), kinds by case split (float, histogram with 1..2 buckets with growing or dropping counts), arbitrary [mint, maxt]; the chunks are time-ordered, carry the first/last timestamp of their contents, and decode to exactly the inserted samples inside the range, in time order, with their kind and values
-//vp:assume XOR float encoding and the classic histogram encodings (useXOR2 and useHistogramST off); values concrete
+//vp:assume values and start timestamps concrete; both float encodings and both histogram encodings by case split (useXOR2, useHistogramST)
 package tsdb
 
 import (
@@ -22,6 +22,7 @@ func vpH_C01_ooo_chunk_to_encoded() {
 		f    float64
 		h    *histogram.Histogram
 		kind int
+		st   int64
 	}
 	var in []smp
 	for i := 0; i < n; i++ {
@@ -48,11 +49,14 @@ func vpH_C01_ooo_chunk_to_encoded() {
 			s.h = &histogram.Histogram{Schema: 0, ZeroThreshold: 0.001, Count: uint64(base) * uint64(s.kind), Sum: float64(i),
 				PositiveSpans: []histogram.Span{{Offset: 0, Length: uint32(s.kind)}}, PositiveBuckets: bs}
 		}
-		vpAssert(oc.Insert(0, s.t, s.f, s.h, nil), "a sample at a new timestamp is inserted")
+		vpAssert(oc.Insert(int64(2*(i+1)), s.t, s.f, s.h, nil), "a sample at a new timestamp is inserted")
+		s.st = int64(2 * (i + 1))
 		in = append(in, s)
 	}
 	mint, maxt := vpInt64(), vpInt64()
-	chks, err := oc.ToEncodedChunks(mint, maxt, false, false)
+	xor2 := vpShape("useXOR2", 0, 1) == 1
+	histST := vpShape("useHistogramST", 0, 1) == 1
+	chks, err := oc.ToEncodedChunks(mint, maxt, xor2, histST)
 	vpAssert(err == nil, "no error")
 	// expected: the inserted samples inside [mint, maxt], in time order (selection sort over <=3 items with symbolic keys)
 	used := make([]bool, n)
@@ -94,6 +98,11 @@ func vpH_C01_ooo_chunk_to_encoded() {
 			w := want[k]
 			vpObserve("t", t)
 			vpAssert(t == w.t, "samples in time order")
+			wantST := int64(0)
+			if (w.h == nil && xor2) || (w.h != nil && histST) {
+				wantST = w.st
+			}
+			vpAssert(it.AtST() == wantST, "start timestamp kept by the encodings that can store it")
 			if w.h == nil {
 				vpAssert(typ == chunkenc.ValFloat, "sample kind")
 				if typ == chunkenc.ValFloat {
